@@ -248,6 +248,7 @@ type c17Env struct {
 	runner  *c17Runner
 	client  *api.Client
 	cancel  context.CancelFunc
+	reqSeen map[string]bool
 }
 
 // serve runs one request through the real router, like net/http would: the request
